@@ -148,9 +148,28 @@ theorem not_ascii_exists (hs : Headers) (h : ¬ commaHeadersAscii hs) :
 
 /-! ### validity -/
 
+/-- **only version 13**: the test `Handshake.is_valid` applies to the (last) `Sec-WebSocket-Version` value — operator and
+    constant as they stand in the source, translated by the extractor (`HC/Extracted/WsGuards.lean`) — lets exactly the
+    value `13` through: not an absent header, not `130`, `213`, `1.13`, `013`, `13, 8` or any other value containing it -/
+theorem only_version_13_iff (v : Option Bytes) : HC.Extracted.WsGuards.versionAccepted v = true ↔ v = some "13".b := by
+  have hk : ("13".b : Bytes) = [49, 51] := by decide
+  rw [hk]
+  cases v with
+  | none => simp [HC.Extracted.WsGuards.versionAccepted]
+  | some b => simp [HC.Extracted.WsGuards.versionAccepted]
+
+theorem only_version_13 (v : Option Bytes) : HC.Extracted.WsGuards.versionAccepted v = (v == some "13".b) := by
+  rw [Bool.eq_iff_iff, only_version_13_iff]
+  simp
+
+example : HC.Extracted.WsGuards.versionAccepted (some "130".b) = false ∧ HC.Extracted.WsGuards.versionAccepted (some "213".b) = false ∧
+    HC.Extracted.WsGuards.versionAccepted (some "1.13".b) = false ∧ HC.Extracted.WsGuards.versionAccepted none = false ∧
+    HC.Extracted.WsGuards.versionAccepted (some "13".b) = true ∧ HC.Extracted.WsGuards.websocketVersion = "13".b := by decide
+
 theorem isValid_handshakeOf_iff (version : String) (hs : Headers) :
     (handshakeOf version hs).isValid = .ok true ↔ validSpec version hs := by
   unfold Handshake.isValid validSpec handshakeOf
+  simp only [only_version_13]
   simp only [Bool.false_eq_true, if_false]
   by_cases hlt : version < "1.1"
   · simp [hlt]
@@ -549,6 +568,26 @@ theorem disconnect_code_client_close (s : S) (c : Nat) (hc : s.closed = false) (
     (handle (handleEvents s [.close c]).1 .streamClosed).2.1 = [.disconnect c] := by
   rw [client_close_echoed s c hopen]
   simp [handle, hc, hp, hst]
+
+/-- **client-initiated close whose echo can no longer be written** (the client sent its close frame and vanished): the
+    failed write re-enters the protocol, `StreamClosed` is handled while the echo is still being awaited — and the
+    application is nevertheless told the client's code, because the source records the code *before* it awaits the echo
+    (`WsGuards.closeCodeBeforeEcho`, the statement order under `if … REMOTE_CLOSING:` as extracted) -/
+theorem disconnect_code_client_close_echo_lost (s : S) (c : Nat) (hc : s.closed = false) (hp : s.hasAppPut = true)
+    (hst : s.st = .connected) (hopen : s.conn = some .open) :
+    (handle (atCloseEcho s c) .streamClosed).2.1 = [.disconnect c] ∧
+    (handleCloseEchoLost s c).2.1 = [.disconnect c] ∧ (handleCloseEchoLost s c).1.closed = true := by
+  have hmid : (handle (atCloseEcho s c) .streamClosed) =
+      ({ atCloseEcho s c with closed := true }, [.disconnect c], [], none) := by
+    simp [handle, atCloseEcho, hc, hp, hst, hopen, connRecvClose, HC.Extracted.WsGuards.closeCodeBeforeEcho]
+  refine ⟨by rw [hmid], ?_, ?_⟩
+  · simp only [handleCloseEchoLost, hmid]
+    rw [client_close_echoed s c hopen]
+    simp
+  · simp only [handleCloseEchoLost, hmid]
+
+/-- the order itself, as a fact about the source -/
+theorem close_code_recorded_before_echo : HC.Extracted.WsGuards.closeBranch = ["recordCode", "echo"] := by decide
 
 /-- **after the application's own `websocket.close`: 1000** (close frame with the application's code, default 1000) -/
 theorem app_close_1000 (token : Bytes → Bytes) (ext : Option Bytes) (s : S) (code : Option Nat)
